@@ -53,7 +53,9 @@ def v1_stream(tree, P, order, pads, trailing_pad):
         chunks.append(sandbox.file_bytes(f))
         off += f["size"]
         last = i == len(order) - 1
-        gap = -off % P
+        # pads = True / 1: files start on piece boundaries; pads = k > 1: on multiples of k pieces (BEP 47 fixes no pad length:
+        # such a pad is longer than the room left in the piece it starts in)
+        gap = -off % (P * int(pads or 1))
         if pads and gap and (not last or trailing_pad):
             entries.append({b"attr": b"p", b"length": gap, b"path": [pad_dir, b"%d" % gap]})
             chunks.append(bytes(gap))
